@@ -747,6 +747,8 @@ def totality_cases(tier):
         ("nested-loops-8", T("var v = 0;\n" + "".join(f"for (var i{i} = 0; i{i} < 2; i{i}++) {{ " for i in range(8)) + "v += 1;" + " }" * 8 + "\ny <== x + v;"), []),
         ("paren-depth-300", T("y <== " + "(" * 300 + "x" + ")" * 300 + ";"), []),
         ("sum-chain-2000", T("y <== " + " + ".join(["x"] * 2000) + ";"), []),
+        # a 69-line function produced by the scopes generator: ifs, whiles and a for nested three deep around one counter
+        ("nested-control-flow-function", open(os.path.join(os.path.dirname(os.path.abspath(__file__)), "fixtures", "nested_control_flow_function.circom")).read(), []),
         ("unary-chain-200", T("var v = " + "-" * 200 + "1;\ny <== x + v;"), []),
         ("not-chain-200", T("var v = " + "!" * 200 + "1;\ny <== x + v;"), []),
         ("huge-decimal-literal", T(f"var v = {big};\ny <== x + v;"), []),
@@ -1226,6 +1228,160 @@ def suite_sigassign(exe, tier, seed):
             "bound": f"{n_prog} generated programs, up to {12 if tier == 'quick' else 30} shapes each (seeded)", "samples": samples, "violations": viol}
 
 
+def scopes_program(rng, size):
+    """a function whose body nests if / else / while / for blocks and declares variables from a small pool of names (some
+    of which collide after suffixing: x, x_0, x_1); every declaration initialises its variable with its own constant and no
+    variable is assigned again, so `if (NAME == K)` observes which declaration a use refers to. Returns (source, shadows,
+    uses): shadows = {line of a shadowing declaration: line of the shadowed one}; uses = {line: 'const' | 'unknown'}"""
+    pool = ["x", "y", "x_0", "x_1", "y_0", "p"]
+    lines = ["pragma circom 2.0.0;", "function f(p, q) {", "  var r = 0;"]
+    hdr = 2
+    stack = [{"p": (hdr, None), "q": (hdr, None)}, {}]
+    shadows, uses = {}, {}
+    const = [100]
+    def visible(name):
+        for sc in reversed(stack):
+            if name in sc:
+                return sc[name]
+        return None
+    def emit(text):
+        lines.append("  " * len(stack) + text)
+        return len(lines)
+    def declare(name, text_fn, value):
+        vis = visible(name)
+        ln = emit(text_fn(name))
+        if vis is not None:
+            shadows[ln] = vis[0]
+        stack[-1][name] = (ln, value)
+    def gen(budget, depth):
+        while budget > 0:
+            act = rng.choice(["decl", "decl", "use", "use", "use", "if", "ifelse", "while", "for"] if depth < 3 else ["decl", "use", "use"])
+            budget -= 1
+            if act == "decl":
+                cands = [n for n in pool if n not in stack[-1]]
+                if not cands:
+                    continue
+                const[0] += 1
+                k = const[0]
+                declare(rng.choice(cands), lambda n: f"var {n} = {k};", k)
+            elif act == "use":
+                cands = sorted({n for sc in stack for n in sc})
+                name = rng.choice(cands)
+                (dl, val) = visible(name)
+                if val is None:
+                    ln = emit(f"if ({name} == 7) {{ r = r + 1; }}")
+                    uses[ln] = ("unknown", dl)
+                else:
+                    ln = emit(f"if ({name} == {val}) {{ r = r + 1; }}")
+                    uses[ln] = ("const", dl)
+            elif act in ("if", "ifelse"):
+                emit(f"if (q > {rng.randrange(9)}) {{")
+                stack.append({})
+                sub = rng.randrange(1, 4)
+                gen(sub, depth + 1)
+                stack.pop()
+                if act == "ifelse":
+                    emit("} else {")
+                    stack.append({})
+                    gen(rng.randrange(1, 4), depth + 1)
+                    stack.pop()
+                emit("}")
+            elif act == "while":
+                emit(f"while (r < {rng.randrange(2, 9)}) {{")
+                stack.append({})
+                gen(rng.randrange(1, 4), depth + 1)
+                emit("  r = r + 1;")
+                stack.pop()
+                emit("}")
+            else:
+                name = rng.choice(["i", "x", "y"])
+                stack.append({})          # the scope the desugared `for` opens for its initialisation
+                vis = visible(name)
+                ln = emit(f"for (var {name} = 0; {name} < 2; {name}++) {{")
+                if vis is not None:
+                    shadows[ln] = vis[0]
+                stack[-1][name] = (ln, None)
+                stack.append({})
+                gen(rng.randrange(1, 4), depth + 1)
+                stack.pop()
+                stack.pop()
+                emit("}")
+    gen(size, 0)
+    lines += ["  return r;", "}", "template T() { signal input in; signal output out; out <== in + f(1, 2); }", "component main = T();", ""]
+    return "\n".join(lines), shadows, uses
+
+
+def suite_scopes(exe, tier, seed):
+    """C10 (BOUNDED): shadowing warnings against an independent scope resolver; the declaration a use refers to, observed
+    through the constant each declaration carries"""
+    import random, re
+    viol, samples = [], []
+    evals = nontrivial = 0
+    n_prog = 30 if tier == "quick" else 1500
+    d = tempfile.mkdtemp(prefix="vx-e2e-")
+    def add(ob, inp, what):
+        if len(viol) < 20 and not any(v["obligation"] == f"e2e|scopes|{ob}" for v in viol):
+            viol.append({"unit": "e2e", "fn": "ensure_unique_variables / SSA renaming (whole pipeline)", "obligation": f"e2e|scopes|{ob}", "props": ["C10"],
+                         "input": inp, "what": what, "replay": "python3 run/e2e.py scopes quick 0"})
+    try:
+        for pi in range(n_prog):
+            rng = random.Random(7000 * seed + pi)
+            src, shadows, uses = scopes_program(rng, 4 + pi % 12)
+            path = os.path.join(d, "s.circom")
+            open(path, "w").write(src)
+            sar = os.path.join(d, "s.sarif")
+            if os.path.exists(sar):
+                os.unlink(sar)
+            rc, out, err = run_cli(exe, ["-v", "--sarif-file", sar, path], d)
+            evals += 1
+            if rc is None or rc not in (0, 1) or "panicked" in err:
+                add("run", {"program": pi, "source": src}, f"program {pi}: the tool aborted or hung (exit {rc}): {err[-200:]}")
+                continue
+            if any(c.startswith("P") for (c, _, _) in coded_findings(out)):
+                raise RuntimeError("generator produced a program the tool rejects: " + src[:600])
+            got_sh = {}
+            try:
+                for r in json.load(open(sar))["runs"][0]["results"]:
+                    if r.get("ruleId") == "CS0001" and r.get("locations"):
+                        ln = r["locations"][0]["physicalLocation"]["region"].get("startLine")
+                        got_sh.setdefault(ln, []).append(sorted(l["physicalLocation"]["region"].get("startLine") for l in r.get("relatedLocations", [])))
+            except Exception as e:
+                add("sarif", {"program": pi}, f"program {pi}: unreadable SARIF output ({e})")
+                continue
+            srcl = src.split("\n")
+            for ln in sorted(set(shadows) | set(got_sh)):
+                nontrivial += 1
+                text = srcl[ln - 1].strip()
+                if ln not in got_sh:
+                    add("shadow:missing", {"program": pi, "line": ln, "source": src}, f"program {pi}, line {ln} `{text}` redeclares a name that is visible there (declared on line {shadows[ln]}), no shadowing warning (CS0001)")
+                elif ln not in shadows:
+                    add("shadow:extra", {"program": pi, "line": ln, "source": src}, f"program {pi}, line {ln} `{text}`: shadowing warning, but no declaration of that name is visible there")
+                elif len(got_sh[ln]) != 1:
+                    add("shadow:twice", {"program": pi, "line": ln, "source": src}, f"program {pi}, line {ln} `{text}`: {len(got_sh[ln])} shadowing warnings for one declaration")
+                elif got_sh[ln][0] != [shadows[ln]]:
+                    add("shadow:secondary", {"program": pi, "line": ln, "source": src}, f"program {pi}, line {ln} `{text}`: the shadowed declaration is said to be on line(s) {got_sh[ln][0]}, the innermost visible declaration of that name is on line {shadows[ln]}")
+            claims = {}
+            for (code, ln, text) in coded_findings(out):
+                if code == "CS0009" and ln in uses:
+                    pol = re.search(r"always (true|false)", text)
+                    claims[ln] = pol.group(1) if pol else "unknown"
+            for ln, (kind, dl) in sorted(uses.items()):
+                nontrivial += 1
+                c = claims.get(ln)
+                text = srcl[ln - 1].strip()
+                if kind == "const" and c == "false":
+                    add("use:wrong-declaration", {"program": pi, "line": ln, "source": src}, f"program {pi}, line {ln} `{text}`: the name refers to the declaration on line {dl}, which gives it exactly this value, but the tool says the comparison is always false (it resolved the name to another declaration)")
+                elif kind == "unknown" and c in ("true", "false"):
+                    add("use:wrong-declaration", {"program": pi, "line": ln, "source": src}, f"program {pi}, line {ln} `{text}`: the name refers to the parameter or loop variable declared on line {dl}, whose value is not known, but the tool says the comparison is always {c}")
+            if len(samples) < 4 and pi % 7 == 0:
+                samples.append({"program": pi, "shadowing": {str(k): v for k, v in sorted(got_sh.items())}, "claims": {str(k): v for k, v in sorted(claims.items())}})
+    finally:
+        shutil.rmtree(d, ignore_errors=True)
+    return {"unit": "e2e-scopes", "evaluations": evals, "distinct_nontrivial": nontrivial, "exhaustive": False,
+            "rule": "the real CLI on generated functions nesting if / else / while / for blocks up to depth 3, declaring variables named x, y, x_0, x_1, y_0, p (p is also a parameter; x_0 is what a renamed x looks like) with one constant each and never assigning them again: a shadowing warning (CS0001) stands at exactly the declarations that redeclare a name visible there (block scoping, parameters outermost, a `for` opens a scope for its variable), once, with the innermost visible declaration as related location; and where a use `if (NAME == K)` compares with the constant of the declaration the name refers to, the tool never says `always false` (nor anything about a parameter or loop variable)",
+            "bound": f"{n_prog} generated functions of 4..15 actions (seeded)", "samples": samples, "violations": viol}
+
+
 def main():
     suite, tier, seed = sys.argv[1], (sys.argv[2] if len(sys.argv) > 2 else "quick"), int(sys.argv[3]) if len(sys.argv) > 3 else 0
     try:
@@ -1233,7 +1389,7 @@ def main():
     except Exception as e:
         print(json.dumps({"error": str(e)}))
         return
-    r = {"tuples": suite_tuples, "output": suite_output, "values": suite_values, "curves": suite_curves, "includes": suite_includes, "totality": suite_totality, "positions": suite_positions, "sigassign": suite_sigassign}[suite](exe, tier, seed)
+    r = {"tuples": suite_tuples, "output": suite_output, "values": suite_values, "curves": suite_curves, "includes": suite_includes, "totality": suite_totality, "positions": suite_positions, "sigassign": suite_sigassign, "scopes": suite_scopes}[suite](exe, tier, seed)
     print(json.dumps(r))
 
 if __name__ == "__main__":
